@@ -180,6 +180,44 @@ impl BoundSet {
     }
 }
 
+impl BoundSet {
+    /// The lowest version this set is satisfied by, if any.
+    fn min_version(&self) -> Option<Version> {
+        let bound_version = |bound: &Bound| match bound {
+            Bound::Lower(Predicate::Including(v))
+            | Bound::Lower(Predicate::Excluding(v))
+            | Bound::Upper(Predicate::Including(v))
+            | Bound::Upper(Predicate::Excluding(v)) => Some(v.clone()),
+            _ => None,
+        };
+        let release = |v: &Version| Version::from((v.major, v.minor, v.patch));
+
+        // The lowest release at or above the lower bound ...
+        let mut candidates = match self.lower.as_ref() {
+            Bound::Lower(Predicate::Including(v)) => vec![v.clone(), release(v)],
+            Bound::Lower(Predicate::Excluding(v)) if v.is_prerelease() => {
+                let mut next = v.clone();
+                next.pre_release.push(Identifier::Numeric(0));
+                vec![next, release(v)]
+            }
+            Bound::Lower(Predicate::Excluding(v)) => {
+                vec![Version::from((v.major, v.minor, v.patch + 1))]
+            }
+            _ => vec![Version::from((0, 0, 0))],
+        };
+        // ... and the lowest prerelease of every bound that lets prereleases in.
+        for v in [&self.lower, &self.upper].into_iter().filter_map(|b| bound_version(b)) {
+            if v.is_prerelease() {
+                let mut first = release(&v);
+                first.pre_release.push(Identifier::Numeric(0));
+                candidates.push(first);
+            }
+        }
+
+        candidates.into_iter().filter(|v| self.satisfies(v)).min()
+    }
+}
+
 impl fmt::Display for BoundSet {
     fn fmt(&self, f: &mut fmt::Formatter<'_>) -> fmt::Result {
         use Bound::*;
@@ -510,38 +548,7 @@ impl Range {
     Return the lowest [Version] that can possibly match the given range.
     */
     pub fn min_version(&self) -> Option<Version> {
-        if let Some(min_bound) = self.0.iter().map(|range| &range.lower).min() {
-            let min_bound = min_bound.as_ref();
-            match min_bound {
-                Bound::Lower(pred) => match pred {
-                    Predicate::Including(v) => Some(v.clone()),
-                    Predicate::Excluding(v) => {
-                        let mut v = v.clone();
-                        if v.is_prerelease() {
-                            v.pre_release.push(Identifier::Numeric(0))
-                        } else {
-                            v.patch += 1;
-                        }
-                        Some(v)
-                    }
-                    Predicate::Unbounded => {
-                        let mut zero = Version::from((0, 0, 0));
-                        if self.satisfies(&zero) {
-                            return Some(zero);
-                        }
-
-                        zero.pre_release.push(Identifier::Numeric(0));
-                        if self.satisfies(&zero) {
-                            return Some(zero);
-                        }
-                        None
-                    }
-                },
-                Bound::Upper(_) => None,
-            }
-        } else {
-            None
-        }
+        self.0.iter().filter_map(BoundSet::min_version).min()
     }
 }
 
